@@ -622,11 +622,11 @@ func (x *Exec) strConcat(l, r Val, st *State) Val {
 	c := x.c
 	a, b := l.(Sc).T, r.(Sc).T
 	n := c.fresh("cat", SStr)
-	c.assumeDef( tEq(app("slen", n), tAdd(app("slen", a), app("slen", b))))
-	c.assumeDef( tForall([][2]string{{"i!c", SInt}},
+	c.assumeDef(tEq(app("slen", n), tAdd(app("slen", a), app("slen", b))))
+	c.assumeDef(tForall([][2]string{{"i!c", SInt}},
 		tEq(app("sat", n, "i!c"), tIte(tLt("i!c", app("slen", a)), app("sat", a, "i!c"), app("sat", b, tSub("i!c", app("slen", a))))),
 		app("sat", n, "i!c")))
-	c.assumeDef( tEq(app("str!cat", a, b), n))
+	c.assumeDef(tEq(app("str!cat", a, b), n))
 	c.used["str!cat"] = true
 	return Sc{n, SStr}
 }
@@ -838,11 +838,11 @@ func (x *Exec) substr(s, lo, hi string) string {
 		return s
 	}
 	n := c.fresh("sub", SStr)
-	c.assumeHere( tEq(app("slen", n), tSub(hi, lo)))
-	c.assumeHere( tForall([][2]string{{"i!s", SInt}},
+	c.assumeHere(tEq(app("slen", n), tSub(hi, lo)))
+	c.assumeHere(tForall([][2]string{{"i!s", SInt}},
 		tImp(tAnd(tLe("0", "i!s"), tLt("i!s", tSub(hi, lo))), tEq(app("sat", n, "i!s"), app("sat", s, tAdd(lo, "i!s")))),
 		app("sat", n, "i!s")))
-	c.assumeHere( tEq(app("str!sub", s, lo, hi), n))
+	c.assumeHere(tEq(app("str!sub", s, lo, hi), n))
 	c.used["str!sub"] = true
 	return n
 }
@@ -1122,7 +1122,7 @@ func (x *Exec) allocRef(tname string, cl *ast.CompositeLit, st *State) (Val, *St
 		top = a.(Sc).T
 	} else {
 		top = c.fresh("alloc0", SInt)
-		c.assumeHere( tGe(top, "0"))
+		c.assumeHere(tGe(top, "0"))
 		if x.entry != nil {
 			x.entry.ghost["alloc"] = scInt(top)
 		}
@@ -1188,7 +1188,7 @@ func (x *Exec) globalVal(o *types.Var, st *State) Val {
 				}
 				env := &SpecEnv{x: x, st: &State{vars: map[types.Object]Val{o: v}, heap: map[string]Val{}, ghost: map[string]Val{}, pc: tTrue},
 					names: map[string]Val{o.Name(): v}}
-				c.assumeHere( env.evalBool(inv.E))
+				c.assumeHere(env.evalBool(inv.E))
 			}
 			if len(gi.invs) > 0 {
 				c.notes = append(c.notes, "global "+key+" assumed under its invariant (established by "+gi.establishedBy+")")
